@@ -68,6 +68,31 @@ def gen(rng, V, depth, pools):
             else:
                 leaves.append(("lit", "%d %s" % (x, e["word"]), F(x) * F(10) ** e["prefix"], e["dims"]))
         return ("bin", rng.choice("**/"), leaves[0], leaves[1])
+    if rng.random() < 0.05:
+        # two operands that share a unit NAME under different prefixes (500 g/lb * 2 lb/kg, 254 cm/in / 1 in/m); in half of the
+        # cases each operand is a ratio whose dimensions cancel inside the operand (seed C04-d)
+        ks = [k for k, es in V.by_key.items() if len({e["prefix"] for e in es}) > 1 and not es[0]["offset"]]
+        k = rng.choice(ks)
+        e1, e2 = rng.sample([e for e in V.by_key[k]], 2)
+        if e1["prefix"] == e2["prefix"]:
+            e2 = rng.choice([e for e in V.by_key[k] if e["prefix"] != e1["prefix"]])
+        leaves = []
+        ratio = rng.random() < 0.5
+        for e, sgn in ((e1, rng.choice([1, -1])), (e2, rng.choice([1, -1]))):
+            pw = sgn * rng.choice([1, 1, 2])
+            fs = [(e, pw)]
+            if ratio:
+                same = [z for z in V.by_dims[e["dims"]] if z["key"] != e["key"]]
+                if same:
+                    fs.append((rng.choice(same), -pw))
+            elif rng.random() < 0.5:
+                o = V.pick(rng)
+                if o["key"] != e["key"]:
+                    fs.append((o, rng.choice([1, -1])))
+            s, dims = V.factors_si(fs)
+            xs, x = mag(rng)
+            leaves.append(("lit", "%s %s" % (xs, G.text(fs, rng)), x * s, dims))
+        return ("bin", rng.choice("**/"), leaves[0], leaves[1])
     if r < 0.25:
         n = rng.choice([-3, -2, -1, 0, 0, 1, 2, 2, 3])
         return ("bin", "^", gen(rng, V, depth - 1, pools), ("lit", str(n), F(n), None))
